@@ -663,7 +663,10 @@ def _cf_model(case, rep):
     if rep[0] != "ok":
         return ["model-error", rep]
     out = []
-    for r in rep[1:]:
+    body = rep[1:]
+    if body and isinstance(body[0], list) and body[0] and body[0][0] == "frag":
+        body = body[1:]  # the C07 / C08 driver ops prefix their replies with the fragment flags of the case
+    for r in body:
         if r[0] == "err":
             if r[1] == "unidentifiable":
                 out.append(["unidentifiable"])
